@@ -301,18 +301,25 @@ def expand_template(tpl_text, repo, tpl_name='unit', canary=False):
                 loops[int(arg.strip())] = text
             elif d in ('before', 'after'):
                 rx = arg.strip()
+                # optional ordinal "k/n /re/": the k-th of exactly n hits (statement-position
+                # anchors that do not quote the expression a hint is about)
+                om = re.match(r'(\d+)/(\d+)\s+(/.*/)$', rx)
+                ordn = None
+                if om:
+                    ordn, rx = (int(om.group(1)), int(om.group(2))), om.group(3)
                 if not (rx.startswith('/') and rx.endswith('/')):
                     raise ValueError('bad anchor regex %r' % rx)
-                inserts.append((d, rx[1:-1], text))
+                inserts.append((d, rx[1:-1], text, ordn))
             else:
                 raise ValueError('%s: unknown directive %s' % (tpl_name, d))
         # hints (before loops so that offsets stay valid: do all as offset edits, back to front)
         edits = []
-        for d, rx, text in inserts:
+        for d, rx, text, ordn in inserts:
             hits = list(re.finditer(rx, body, flags=re.S))
-            if len(hits) != 1:
-                raise LostAnchor('%s: hint anchor /%s/ has %d hits' % (what, rx, len(hits)))
-            pos = hits[0].start() if d == 'before' else hits[0].end()
+            k, n = ordn or (1, 1)
+            if len(hits) != n:
+                raise LostAnchor('%s: hint anchor /%s/ has %d hits, expected %d' % (what, rx, len(hits), n))
+            pos = hits[k - 1].start() if d == 'before' else hits[k - 1].end()
             edits.append((pos, '\n' + text + '\n'))
         if loops:
             lp = _loop_positions(body)
